@@ -15,7 +15,8 @@ PROP = 'C09'
 LEVEL = 'exploration'
 CLASSES = ['tiny', 'no_control', 'no_treatment', 'all_excluded', 'empty_admitted', 'size_beyond',
            'ratio_unsat', 'share_budget_impossible', 'n_geos_max_2', 'long_test', 'window_exact',
-           'hostile_matrix', 'iroas_zero', 'fixed_overflow', 'integral_floats', 'late_start_geo', 'huge_tolerance', 'random']
+           'hostile_matrix', 'iroas_zero', 'fixed_overflow', 'integral_floats', 'late_start_geo', 'huge_tolerance', 'orthogonal',
+           'wide_index', 'random']
 RULE = ('Each case draws one hostile input class (%s), builds fresh data / parameter / matched-markets '
         'objects and runs exhaustive_search and greedy_search at the client boundary. Series are never '
         'constant and the analysis window always holds >= n_test + 3 points, so the property applies to '
@@ -55,6 +56,10 @@ def make_hostile(r, g, cls, tier):
   if cls == 'long_test':
     G = r.randrange(2, 5)
     kwargs['n_dates'] = r.randrange(101, 121)
+  if cls == 'orthogonal':
+    return make_orthogonal(r, g)
+  if cls == 'wide_index':
+    return make_wide_index(r, g)
   case = sl.make_case(r, g, G, elig_extra='none', **kwargs)
   ids = [str(i) for i in case['panel']['ids']]
   kw = case['params']
@@ -148,6 +153,70 @@ def make_hostile(r, g, cls, tier):
     kw['treatment_geos_range'] = (1, r.choice([1, 2]))
     if r.random() < 0.5:
       kw['control_geos_range'] = (1, r.choice([1, 2]))
+  return case
+
+
+def make_orthogonal(r, g):
+  """Small-integer on/off series built from Walsh functions: every pair of groups has a correlation of EXACTLY 0.0
+  (all sums are exact in floating point). The series are not constant and the window is long enough."""
+  import numpy as np
+  D = r.choice([8, 16])
+  G = r.randrange(2, 6)
+  case = sl.make_case(r, g, G, elig_extra='none', n_dates=D, cls='continuous', allow=('size',),
+                      elig_mode=r.choice(['none', 'ctx', 'mostly_ctx']))
+  rows = r.sample(range(1, D), G)
+  vals = np.zeros((G, D))
+  for i, w in enumerate(rows):
+    h = np.array([(-1.0) ** bin(w & j).count('1') for j in range(D)])
+    vals[i] = r.randrange(10, 200) + r.randrange(1, 6) * h
+  pn = case['panel']
+  pn['values'] = vals
+  pn['present'] = np.ones((G, D), dtype=bool)
+  pn['dups'] = None
+  pn['features'] = list(pn.get('features') or []) + ['walsh']
+  case['frame'] = gen.panel_frame(pn, r, shuffle=True)
+  kw = case['params']
+  for k in ('budget_range', 'treatment_share_range', 'n_geos_max', 'volume_ratio_tolerance', 'n_pretest_max'):
+    kw.pop(k, None)
+  kw['n_test'] = r.randrange(1, D - 3 + 1)
+  case['prior_long_window'] = False
+  return case
+
+
+def make_wide_index(r, g):
+  """More than 64 geos take part in the exhaustive search, which stays small because nearly all of them may only
+  be control geos or left out, the control group has exactly one geo and only the three smallest geos may be
+  treated; the budget admits single treatment geos but not every pair."""
+  import numpy as np
+  G = r.randrange(67, 78)
+  case = sl.make_case(r, g, G, elig_extra='none', n_dates=r.randrange(15, 30), cls='continuous', allow=('size',), elig_mode='ctx',
+                      id_style=r.choice(['int', 'numstr']))
+  pn = case['panel']
+  ids = [str(i) for i in pn['ids']]
+  # geo order follows volume: the three smallest geos come last (index >= 64); they are also the noisiest, so that a
+  # budget that admits every single geo still rules out pairs of them
+  present = pn['present']
+  means = np.array([float(np.where(present[i], pn['values'][i], 0.0).mean()) for i in range(G)])
+  order = sorted(range(G), key=lambda i: means[i])
+  small = [ids[i] for i in order[:3]]
+  for i in order[3:]:
+    m = float(pn['values'][i].mean())
+    pn['values'][i] = m + 0.02 * (pn['values'][i] - m)
+  pn['dups'] = None
+  case['frame'] = gen.panel_frame(pn, r, shuffle=True)
+  case['elig_rows'] = {gid: ('tx' if gid in small else 'cx') for gid in ids}
+  kw = {k: v for k, v in case['params'].items() if k in ('n_test', 'iroas', 'n_designs', 'sig_level', 'power_level', 'flevel', 'min_corr', 'rho_max')}
+  kw['treatment_geos_range'] = (1, 3)
+  kw['control_geos_range'] = (1, 1)
+  case['params'] = kw
+  case['preset_geo_index'] = False
+  case['prior_long_window'] = False
+  truth = sl.Truth(case)
+  if truth.iroas > 0:
+    singles = max(truth.opt_impact([gid]) for gid in truth.ids)
+    pairs = max(truth.opt_impact([a, b]) for a in small for b in small if a < b)
+    top = max(pairs, singles * 1.2)
+    kw['budget_range'] = (0.0, (singles + r.choice([0.3, 0.6]) * (top - singles)) / truth.iroas)
   return case
 
 
